@@ -17,7 +17,7 @@ RULE = (
     "localhost, other.test} x WEBSOCKET_CLIENT_CA_BUNDLE {unset, file, dir, nonexistent; only without user trust options} x "
     "URL {wss://localhost, wss://127.0.0.1, ws://localhost} x {direct, through a local CONNECT proxy} x server certificate; "
     "plus wss targets reached through a 302 from ws:// {same port, other port} x {connection kept open, Connection: close} x trust x {default, CERT_NONE, check_hostname=False, NONE+True} x certificate; "
-    "plus the same options through WebSocketApp.run_forever(sslopt=..., proxy options) for a sub-product; plus ssl_version {PROTOCOL_TLS, PROTOCOL_TLSv1_2} x trust x cert_reqs x check_hostname x certificate. "
+    "plus the same options through create_connection(sslopt=...) and through WebSocketApp.run_forever(sslopt=..., proxy options) for a sub-product; plus ssl_version {PROTOCOL_TLS, PROTOCOL_TLSv1_2} x trust x cert_reqs x check_hostname x certificate. "
     "Non-trivial: wss cases in which at least one of the two checks (chain, host name) is active, and configuration errors. "
     "Distinct = the configuration (enumeration without repeats)."
 )
@@ -129,6 +129,8 @@ def run_case(c):
                     ws = approute.connect(websocket, url, dict(kw, sslopt=sslopt))
                 finally:
                     websocket.setdefaulttimeout(None)
+            elif c.get("api") == "create_connection":
+                ws = websocket.create_connection(url, timeout=5, sslopt=sslopt, **kw)
             else:
                 ws = websocket.WebSocket(sslopt=sslopt)
                 ws.connect(url, timeout=5, **kw)
@@ -305,15 +307,16 @@ def configs():
 
     # the same options through WebSocketApp.run_forever(sslopt=...)
     for cert in ("good", "other", "rogue"):
+      for api in ("app", "create_connection"):
         for proxy in (False, True):
             for trust in ("none", "ca_certs=testca", "ca_certs=rogueca", "ca_cert_path", "ctx-verified", "ctx-unverified"):
                 for cr, ch in ((None, None), ("NONE", None), ("NONE", False), ("REQUIRED", False), ("OPTIONAL", True), ("NONE", True)):
                     if trust.startswith("ctx") and (cr, ch) != (None, None):
                         continue
                     for sh in (None, "other.test"):
-                        yield {"api": "app", "scheme": "wss", "host": "localhost", "cert": cert, "proxy": proxy, "trust": trust, "cert_reqs": cr, "check_hostname": ch,
+                        yield {"api": api, "scheme": "wss", "host": "localhost", "cert": cert, "proxy": proxy, "trust": trust, "cert_reqs": cr, "check_hostname": ch,
                                "server_hostname": sh, "env": None}
-            yield {"api": "app", "scheme": "ws", "host": "localhost", "cert": cert, "proxy": proxy, "trust": "none", "cert_reqs": "REQUIRED", "check_hostname": None, "server_hostname": "other.test", "env": None}
+            yield {"api": api, "scheme": "ws", "host": "localhost", "cert": cert, "proxy": proxy, "trust": "none", "cert_reqs": "REQUIRED", "check_hostname": None, "server_hostname": "other.test", "env": None}
     # a wss scheme spelled with upper-case letters is either refused (ValueError, nothing sent) or treated as wss - never as plain ws
     for cert in ("good", "rogue"):
         for sp in ("WSS", "Wss", "wsS"):
